@@ -1,6 +1,6 @@
 SPECIFICATION Spec
 CONSTANTS
-  Elevs = {1, 2, 3}
+  Elevs = {0, 1, 255}
   MaxLen = 6
   Azs = {1, 2, 3}
   MaxSide = 3
